@@ -17,24 +17,25 @@ func readFile(name string) ([]byte, error) { return os.ReadFile(name) }
 
 // Frame is the context in which Go code (real or spec) is symbolically executed.
 type Frame struct {
-	vc      *VC
-	pk      *packages.Package
-	fi      *FuncInfo // function whose body is executed (loop specs / anchors); nil for spec code
-	old     *State    // state Old(...) refers to
-	spec    bool      // spec / ghost code: no safety obligations, partial operations are total
-	results []*types.Var
-	defers  []*ast.FuncLit
-	tsub    map[*types.TypeParam]types.Type
-	guard   Term // extra guard for obligations raised inside short-circuit operands
-	bound   map[types.Object]Term
-	top     bool // executing the function under verification itself
-	spc     *Spec
-	specEnv map[envKey]Term // contract params/results for the function under verification
-	inOld   bool
-	depth   int
-	monitors []monitor
-	closures map[types.Object]*ast.FuncLit
-	split    bool // path splitting instead of merging (directive //kvc:split)
+	vc        *VC
+	pk        *packages.Package
+	fi        *FuncInfo // function whose body is executed (loop specs / anchors); nil for spec code
+	old       *State    // state Old(...) refers to
+	spec      bool      // spec / ghost code: no safety obligations, partial operations are total
+	results   []*types.Var
+	defers    []*ast.FuncLit
+	tsub      map[*types.TypeParam]types.Type
+	guard     Term // extra guard for obligations raised inside short-circuit operands
+	bound     map[types.Object]Term
+	top       bool // executing the function under verification itself
+	spc       *Spec
+	specEnv   map[envKey]Term // contract params/results for the function under verification
+	inOld     bool
+	depth     int
+	monitors  []monitor
+	closures  map[types.Object]*ast.FuncLit
+	split     bool // path splitting instead of merging (directive //kvc:split)
+	openWorld bool // map-order obligations: helper functions without a contract are inlined
 }
 
 type monitor struct {
@@ -184,9 +185,6 @@ func (f *Frame) expr(st *State, e ast.Expr) Term {
 		if fn, isFn := obj.(*types.Func); isFn {
 			return f.namedFuncValue(st, fn)
 		}
-		if isStructValue(obj.Type()) {
-			vc.fail(e.Pos(), "struct value %s used as a whole (only its fields are supported)", e.Name)
-		}
 		if _, isGhostMap := f.ghostMapVar(e); isGhostMap {
 			vc.fail(e.Pos(), "ghost map %s may only be indexed", e.Name)
 		}
@@ -221,6 +219,25 @@ func (f *Frame) expr(st *State, e ast.Expr) Term {
 					return f.namedFuncValue(st, o)
 				}
 			}
+		}
+		if sel, ok := f.info().Selections[e]; ok && sel.Kind() == types.FieldVal && isStructValue(f.typeOf(e.X)) && !f.heapStructPath(e.X) {
+			// field of a struct VALUE (local, slice element, call result ...): select from the record
+			v := f.expr(st, e.X)
+			curT := f.typeOf(e.X)
+			for _, ix := range sel.Index() {
+				stt, isSt := curT.Underlying().(*types.Struct)
+				if !isSt {
+					vc.fail(e.Pos(), "field path through a pointer inside a struct value is not supported")
+				}
+				fld := stt.Field(ix)
+				fs := SUnit
+				if !isEmptyStruct(fld.Type()) {
+					fs = f.sortOf(fld.Type())
+				}
+				v = app(fs, structFieldSel(v.Sort, fld.Name()), v)
+				curT = f.subst(fld.Type())
+			}
+			return v
 		}
 		loc := f.loc(st, e)
 		return f.load(st, loc, e.Pos())
@@ -346,6 +363,17 @@ func (f *Frame) binary(st *State, e *ast.BinaryExpr) Term {
 			a = f.convert(a, xt, yt)
 		}
 	}
+	if a.S == "$emptyslice" || b.S == "$emptyslice" {
+		other := a
+		if a.S == "$emptyslice" {
+			other = b
+		}
+		isEmpty := Eq(SLen(other), IntLit(0))
+		if e.Op == token.EQL {
+			return isEmpty
+		}
+		return Not(isEmpty)
+	}
 	switch e.Op {
 	case token.EQL:
 		if isSliceSort(a.Sort) {
@@ -399,7 +427,10 @@ func (f *Frame) nilOf(t types.Type, like Term, pos token.Pos) Term {
 		return NilIface()
 	}
 	if isSliceSort(like.Sort) {
-		f.vc.fail(pos, "comparison of a slice with nil is not modelled (nil and empty slices are identified)")
+		// nil and empty slices are identified: `s == nil` is read as `len(s) == 0`. Exact wherever every non-nil
+		// value reaching the comparison is non-empty (stated as an assumption in the evidence).
+		f.vc.dropped["slice == nil read as len == 0 at "+f.vc.posStr(pos)]++
+		return Term{"$emptyslice", like.Sort}
 	}
 	f.vc.fail(pos, "nil comparison at sort %s", like.Sort)
 	return Term{}
@@ -571,23 +602,33 @@ func (f *Frame) loc(st *State, e ast.Expr) Loc {
 
 func (f *Frame) load(st *State, l Loc, pos token.Pos) Term {
 	vc := f.vc
-	if isStructValue(l.typ) {
-		vc.fail(pos, "struct value of type %s read as a whole", l.typ)
+	if isStructValue(l.typ) && l.kind != locVar && l.kind != locSliceElem && l.kind != locMapElem {
+		vc.fail(pos, "struct value of type %s stored inside a heap object is read as a whole", l.typ)
 	}
 	switch l.kind {
 	case locVar:
+		whole := f.lookupVar(st, l.obj, pos)
 		if l.path == "" {
-			return f.lookupVar(st, l.obj, pos)
+			return whole
 		}
-		if t, ok := st.env[envKey{l.obj, l.path}]; ok {
-			return t
-		}
-		if f.specEnv != nil {
-			if t, ok := f.specEnv[envKey{l.obj, l.path}]; ok {
-				return t
+		// field path inside a struct-valued local
+		v := whole
+		curT := f.subst(l.obj.Type())
+		for _, name := range strings.Split(l.path, ".") {
+			stt := curT.Underlying().(*types.Struct)
+			for i := 0; i < stt.NumFields(); i++ {
+				if stt.Field(i).Name() == name {
+					fs := SUnit
+					if !isEmptyStruct(stt.Field(i).Type()) {
+						fs = f.sortOf(stt.Field(i).Type())
+					}
+					v = app(fs, structFieldSel(v.Sort, name), v)
+					curT = f.subst(stt.Field(i).Type())
+					break
+				}
 			}
 		}
-		vc.fail(pos, "field %s.%s not initialised in the symbolic state", l.obj.Name(), l.path)
+		return v
 	case locGlobal:
 		return vc.heapGet(st, l.key, f.sortOf(l.typ))
 	case locField:
@@ -759,7 +800,12 @@ func (f *Frame) store(st *State, l Loc, v Term, pos token.Pos) {
 	vc := f.vc
 	switch l.kind {
 	case locVar:
-		st.env[envKey{l.obj, l.path}] = vc.define(l.obj.Name(), v)
+		if l.path == "" {
+			st.env[envKey{l.obj, ""}] = vc.define(l.obj.Name(), v)
+			break
+		}
+		whole := f.lookupVar(st, l.obj, pos)
+		st.env[envKey{l.obj, ""}] = vc.define(l.obj.Name(), f.structUpdate(whole, f.subst(l.obj.Type()), strings.Split(l.path, "."), v))
 	case locGlobal:
 		vc.heapSet(st, l.key, vc.define("g", v))
 	case locField:
@@ -776,6 +822,54 @@ func (f *Frame) store(st *State, l Loc, v Term, pos token.Pos) {
 		gv := l.obj.(*types.Var)
 		vc.heapSet(st, ghostMapKey(gv), vc.define("gm", Store(f.ghostMapArr(st, gv), l.idx, v)))
 	}
+}
+
+// heapStructPath: e denotes a struct value embedded in a heap object or global (x.f with x a pointer, or a
+// further field of such a value); those are flattened into per-field heap arrays rather than read as records.
+func (f *Frame) heapStructPath(e ast.Expr) bool {
+	switch x := ast.Unparen(e).(type) {
+	case *ast.SelectorExpr:
+		sel, ok := f.info().Selections[x]
+		if !ok {
+			_, isVar := f.info().Uses[x.Sel].(*types.Var)
+			return isVar // qualified global
+		}
+		if sel.Kind() != types.FieldVal {
+			return false
+		}
+		if _, isPtr := f.typeOf(x.X).Underlying().(*types.Pointer); isPtr {
+			return true
+		}
+		return f.heapStructPath(x.X)
+	case *ast.Ident:
+		if v, ok := f.info().Uses[x].(*types.Var); ok && v.Pkg() != nil && v.Parent() == v.Pkg().Scope() {
+			return true
+		}
+	}
+	return false
+}
+
+// structUpdate: functional update of the field at path inside a record value.
+func (f *Frame) structUpdate(whole Term, t types.Type, path []string, v Term) Term {
+	stt := t.Underlying().(*types.Struct)
+	var args []Term
+	for i := 0; i < stt.NumFields(); i++ {
+		fld := stt.Field(i)
+		fs := SUnit
+		if !isEmptyStruct(fld.Type()) {
+			fs = f.sortOf(fld.Type())
+		}
+		cur := app(fs, structFieldSel(whole.Sort, fld.Name()), whole)
+		if fld.Name() == path[0] {
+			if len(path) == 1 {
+				cur = v
+			} else {
+				cur = f.structUpdate(cur, f.subst(fld.Type()), path[1:], v)
+			}
+		}
+		args = append(args, cur)
+	}
+	return app(whole.Sort, "mk_"+whole.Sort, args...)
 }
 
 // ------------------------------------------------------------ composite values
@@ -891,6 +985,31 @@ func (f *Frame) compositeLit(st *State, cl *ast.CompositeLit) Term {
 		if u.NumFields() == 0 {
 			return True
 		}
+		srt := f.sortOf(t)
+		args := make([]Term, u.NumFields())
+		for j := 0; j < u.NumFields(); j++ {
+			ft := f.subst(u.Field(j).Type())
+			if isEmptyStruct(ft) {
+				args[j] = True
+			} else {
+				args[j] = vc.zero(ft)
+			}
+		}
+		for i, el := range cl.Elts {
+			j := i
+			val := el
+			if kv, ok := el.(*ast.KeyValueExpr); ok {
+				name := kv.Key.(*ast.Ident).Name
+				val = kv.Value
+				for k := 0; k < u.NumFields(); k++ {
+					if u.Field(k).Name() == name {
+						j = k
+					}
+				}
+			}
+			args[j] = f.convert(f.rhs(st, val, u.Field(j).Type(), nil), f.typeOf(val), u.Field(j).Type())
+		}
+		return vc.define("rec", app(srt, "mk_"+srt, args...))
 	}
 	vc.fail(cl.Pos(), "composite literal of type %s used as a value", t)
 	return Term{}
